@@ -473,7 +473,26 @@ def bounded(rep, tier):
                         'Earley recogniser over the same productions must accept the complete real token sequence')
 
 
+
+def ignore_obligations(rep):
+    """the text the lexer drops is exactly SQL's comments and white space (otherwise tokens of the statement silently disappear)"""
+    from vlib import lexmodel, lrtab as _lr
+    for dname in _lr.DIALECTS:
+        d = _lr.load(dname)
+        probs = lexmodel.ignore_rule_problems(d.Lexer)
+        fn_ = f'{d.lexer_module}:{d.lexer_class_name}'
+        clause = 'forall texts matched by an ignore rule: a `--`/`#` comment contains no line break, a block comment is the shortest /* ... */, anything else is white space'
+        if not probs:
+            rep.proved(f'C05.lex.ignored-text.{dname}', 'fst', 'every ignore rule matches only comments / white space', function=fn_, clause=clause)
+        for name, w, text in probs:
+            sql = None
+            if w is not None and name != 'ignore':
+                sql = f'select a {w} , b from t' if '\n' in (w or '') else None
+            rep.failed(f'C05.lex.ignored-text.{dname}.{name}', 'fst', text, function=fn_, clause=clause,
+                       replay={'input': f'select a\n{w}, b\nfrom t' if w else None, 'dialect': dname, 'fires': bool(w), 'observed': text, 'expected': 'only the comment is dropped'})
+
 def check(rep, tier):
+    ignore_obligations(rep)
     from vlib import statecensus
     statecensus.obligations(rep, 'C05', 'parser')
     rep.dropped = ('tables regenerated by importing the real parser classes; function bodies read with ast.parse: decorators other than @_, '
